@@ -103,6 +103,7 @@ def check(ctx):
     ctx.rule("R1", "only jobs.py mutates the job dict / task deque, and every function that adds or removes a member of one does the same to the other on the same paths (or only permutes the deque)", floor=6)
     ctx.rule("R2", "fg/bg/disown cannot reach an error return after mutating either structure", floor=2)
     ctx.rule("R3", "the number allocator purges dead jobs first and scans upward from 1; add_job registers that number in both structures", floor=4)
+    ctx.rule("R5", "inside one function every access to the job structures happens under one view of the tables", floor=12)
     ctx.rule("R4", "jobs/bg/disown run against the main thread's table; use_main_jobs restores the thread-local view on every exit; fg is unthreadable", floor=5)
 
     mod = ctx.repo.module(JB)
@@ -314,6 +315,55 @@ def check(ctx):
         raise AnalysisError(f"{JB}:use_main_jobs: expected swaps of both thread-local fields")
 
 
+    # ---- R5 one view per function
+    # a number allocated against one table must be registered in the same table: inside one
+    # function every access to the job structures happens under the same view.  A
+    # `with use_main_jobs()` (also a conditional one) that covers only part of them splits it.
+    direct = {"get_tasks", "get_jobs"}
+    funcs = {q: fn for q, fn in mod.functions() if "." not in q}
+    acc = set()
+    changed = True
+    while changed:
+        changed = False
+        for q, fn in funcs.items():
+            if q in acc or q in direct or q == "use_main_jobs":
+                continue
+            for c in calls_in(fn):
+                nm = (call_name(c) or "").split(".")[-1]
+                if nm in direct or nm in acc:
+                    acc.add(q)
+                    changed = True
+                    break
+            else:
+                if any(_struct_of(x, set(), set()) for x in ast.walk(fn) if isinstance(x, (ast.Attribute, ast.Name))):
+                    acc.add(q)
+                    changed = True
+    n5 = 0
+    for q in sorted(acc):
+        fn = funcs[q]
+        sites = [c for c in calls_in(fn) if (call_name(c) or "").split(".")[-1] in direct | acc]
+        sites += [x for x in walk_local(fn) if isinstance(x, (ast.Attribute, ast.Name)) and _struct_of(x, set(), set()) and not isinstance(parent(x), ast.Attribute)]
+        withs = [w for w in walk_local(fn) if isinstance(w, (ast.With, ast.AsyncWith)) and any("use_main_jobs" in unparse(it.context_expr) for it in w.items)]
+        n5 += 1
+        bad = None
+        for w in withs:
+            inside = [s_ for s_ in sites if any(lexically_inside(s_, b) or s_ is b for b in w.body)]
+            outside = [s_ for s_ in sites if s_ not in inside and not any(s_ is x for it in w.items for x in ast.walk(it.context_expr))]
+            if inside and outside:
+                bad = (w, outside[0])
+        ctx.ob(
+            "R5",
+            f"{JB}:{q}",
+            "every access to the job structures in this function happens under one view (no `with use_main_jobs()` around only part of them: a number allocated in one table would be registered in another)",
+            bad is None,
+            key=f"{q}|split-view",
+            where=loc(bad[0]) if bad else loc(fn),
+            detail=(f"`{short(bad[1], 50)}` at line {bad[1].lineno} runs outside the `with` at line {bad[0].lineno}" if bad else None),
+        )
+    if n5 < 12:
+        raise AnalysisError(f"{JB}: only {n5} functions accessing the job structures found")
+
+
 META = {
     "technique": "static analysis: who-may-write + effect summaries of every mutator of the two job structures, CFG pairing (must-pass-through/dominance) and reachability of error returns after mutation",
     "text": "Decides, over all paths rather than sampled histories, that the two structures forming the job table "
@@ -322,7 +372,8 @@ META = {
     "a remove+appendleft permutation, or the purge that filters the deque and pops exactly the filtered-out set; "
     "fg/bg/disown cannot reach an error return once either structure was mutated; the allocator purges first and "
     "scans from 1 upward, and add_job registers that number in both; jobs/bg/disown are wrapped in use_main_jobs "
-    "whose swap is undone on every exit, fg is unthreadable. Interleavings with process exits are not decided.",
+    "whose swap is undone on every exit, fg is unthreadable; inside one function every access to the structures "
+    "happens under one view (a number allocated against one table is never registered in another). Interleavings with process exits are not decided.",
     "note": "Decides the listed structural clauses, not the behaviour. Error returns are recognised by the alias "
     "convention `return <out>, <non-empty err>`.",
 }
